@@ -499,8 +499,8 @@ class Decider:
             STATS.queries_sat += 1
         else:
             STATS.queries_unknown += 1
-        smt = "(set-logic ALL)\n" + s.sexpr() + "(check-sat)\n"
-        STATS.smt_dumps.append((name, smt, verdict))
+        # keep the assertions; the SMT-LIB2 text is rendered lazily for the queries cvc5 re-decides
+        STATS.smt_dumps.append((name, list(s.assertions()), verdict))
         self.log.append({"name": name, "verdict": verdict, "solver_s": round(dt, 4)})
         return verdict, (s.model() if verdict == "sat" else None)
 
